@@ -39,13 +39,17 @@ Record effect := mkEff { e_tag : nat; e_val : nat; e_maps : list nat; e_res : rk
 Record event := mkEv { v_tag : nat; v_val : nat; v_maps : list nat }.
 
 (* ---------- resumable futures ---------- *)
+(* one ShellRequest inside a join! / select!: not yet sent | waiting | fused-dead | finished with a value *)
+Inductive subreq := SQ (sent dead : bool) (tg v ch : nat) | SDone (m : nat).
 Inductive leaf :=
 | LRun (t : task)
 | LReq (sent dead : bool) (tg v ch x : nat) (k : task)
 | LStr                                   (* polling the stream of the innermost loop frame *)
 | LJoin (uid : nat) (k : task)
 | LHost (cid meff mev : nat) (k : task)
-| LYield (n : nat) (k : task).
+| LYield (n : nat) (k : task)
+| LBoth (a b : subreq) (x1 x2 : nat) (k : task)
+| LRace (a b : subreq) (x : nat) (k : task).
 Record frame := mkFr { fr_sent : bool; fr_tg : nat; fr_v : nat; fr_ch : nat; fr_x : nat;
                        fr_body : task; fr_k : task }.
 Record fstate := mkF { f_env : env; f_leaf : leaf; f_stack : list frame }.
@@ -197,6 +201,9 @@ Definition was_aborted (cid : nat) (H : heap) : bool :=
   existsb (fun n => existsb (fun a => Nat.eqb n (fst a) && Nat.ltb (c_epoch c) (snd a)) (aborted H)) (c_names c).
 
 (* ---------- drop glue ---------- *)
+Definition sub_drop (q : subreq) (H : heap) : heap :=
+  match q with SQ _ dead _ _ ch => if dead then H else chan_drop_rx ch H | SDone _ => H end.
+
 Definition DF := 64.
 Definition kill_flag u (H : heap) := utf u (fun tf => mkTF (tf_fin tf) (tf_abort tf) false (tf_joinw tf)) H.
 Fixpoint drop_fs (fuel : nat) (fs : fstate) (H : heap) : heap :=
@@ -204,6 +211,7 @@ Fixpoint drop_fs (fuel : nat) (fs : fstate) (H : heap) : heap :=
   let H1 := match f_leaf fs with
             | LReq _ dead _ _ ch _ _ => if dead then H else chan_drop_rx ch H
             | LHost cid _ _ _ => drop_cmd f cid H
+            | LBoth a b _ _ _ | LRace a b _ _ => sub_drop b (sub_drop a H)
             | _ => H end in
   fold_left (fun Hh fr => chan_drop_rx (fr_ch fr) Hh) (f_stack fs) H1
   end
@@ -223,6 +231,26 @@ Definition push_ev c (e : event) := ucmd c (fun cm => set_evs (c_evs cm ++ [e]) 
 Definition push_eff c (e : effect) := ucmd c (fun cm => set_eff (c_eff cm ++ [e]) cm).
 Definition map_eff (k : nat) (e : effect) := if Nat.eqb k 0 then e else mkEff (e_tag e) (e_val e) (k :: e_maps e) (e_res e).
 Definition map_ev (k : nat) (e : event) := if Nat.eqb k 0 then e else mkEv (v_tag e) (v_val e) (k :: v_maps e).
+
+(* ShellRequest::poll (Fuse<StreamFuture<ShellStream>>), shared by LReq and the join!/select! leaves:
+   returns the value if ready, the new (sent, dead) flags and the heap *)
+Definition req_poll (c : nat) (w : waker) (sent dead : bool) (tg v ch : nat) (H : heap) : option nat * bool * bool * heap :=
+  if dead then (None, sent, true, H) else
+  if negb sent then (None, true, false, push_eff c (mkEff tg v [] (ROnce ch)) (chan_reg ch w H))
+  else match ch_buf (gch ch H) with
+       | m :: _ => (Some m, true, false, chan_drop_rx ch H)
+       | [] => if ch_tx (gch ch H) then (None, true, false, chan_reg ch w H)
+               else (None, true, true, note B_ClosedPending (chan_drop_rx ch H))
+       end.
+Definition sub_poll (c : nat) (w : waker) (q : subreq) (H : heap) : subreq * heap :=
+  match q with
+  | SDone m => (SDone m, H)
+  | SQ sent dead tg v ch =>
+      match req_poll c w sent dead tg v ch H with
+      | (Some m, _, _, H') => (SDone m, H')
+      | (None, s', d', H') => (SQ s' d' tg v ch, H')
+      end
+  end.
 
 Inductive tstate := Missing | Suspended | Completed | Cancelled.
 Inductive pn := PNPending | PNDone | PNEffect (e : effect) | PNEvent (e : event).
@@ -244,6 +272,7 @@ Definition funs0 : rtfuns :=
 Definition poll_body (F : rtfuns) (c : nat) (w : waker) (fs : fstate) (H : heap) : option (pres * heap) :=
   let en := f_env fs in let st := f_stack fs in
   let go l := rpoll F c w (mkF en l st) in
+  let go_env en' k := rpoll F c w (mkF en' (LRun k) st) in
   match f_leaf fs with
   | LRun t =>
     match t with
@@ -265,20 +294,20 @@ Definition poll_body (F : rtfuns) (c : nat) (w : waker) (fs : fstate) (H : heap)
     | TAbortT h k => rpoll F c w (mkF en (LRun k) st)
                        (utf (getd 0 h en) (fun tf => mkTF (tf_fin tf) true (tf_alive tf) (tf_joinw tf)) H)
     | TYield n k => rpoll F c w (mkF en (LYield n k) st) H
+    | TBoth tg1 e1 x1 tg2 e2 x2 k =>
+        let (ch1, H1) := new_chan H in let (ch2, H2) := new_chan H1 in
+        rpoll F c w (mkF en (LBoth (SQ false false tg1 (eval en e1) ch1) (SQ false false tg2 (eval en e2) ch2) x1 x2 k) st) H2
+    | TRace tg1 e1 tg2 e2 x k =>
+        let (ch1, H1) := new_chan H in let (ch2, H2) := new_chan H1 in
+        rpoll F c w (mkF en (LRace (SQ false false tg1 (eval en e1) ch1) (SQ false false tg2 (eval en e2) ch2) x k) st) H2
     | THost names meff mev m ex k =>
         let (cid, H1) := new_cmd names (Some (c_epoch (gcmd c H))) en m ex H in rpoll F c w (mkF en (LHost cid meff mev k) st) H1
     end
   | LReq sent dead tg v ch x k =>
-    if dead then Some (Pend fs, H) else
-    if negb sent then
-      (* ShellStream::ReadyToSend: poll the receiver (registers), then send the request *)
-      let H1 := chan_reg ch w H in
-      Some (Pend (mkF en (LReq true false tg v ch x k) st), push_eff c (mkEff tg v [] (ROnce ch)) H1)
-    else match ch_buf (gch ch H) with
-      | m :: _ => rpoll F c w (mkF (setv x m en) (LRun k) st) (chan_drop_rx ch H)
-      | [] => if ch_tx (gch ch H) then Some (Pend fs, chan_reg ch w H)
-              else Some (Pend (mkF en (LReq true true tg v ch x k) st), note B_ClosedPending (chan_drop_rx ch H))
-      end
+    match req_poll c w sent dead tg v ch H with
+    | (Some m, _, _, H1) => rpoll F c w (mkF (setv x m en) (LRun k) st) H1
+    | (None, s', d', H1) => Some (Pend (mkF en (LReq s' d' tg v ch x k) st), H1)
+    end
   | LStr =>
     match st with
     | [] => Some (Rdy, H)   (* unreachable: LStr is only entered with a frame *)
@@ -304,6 +333,26 @@ Definition poll_body (F : rtfuns) (c : nat) (w : waker) (fs : fstate) (H : heap)
     match n with
     | 0 => go (LRun k) H
     | S m => Some (Pend (mkF en (LYield m k) st), wake WF w H)
+    end
+  | LBoth a b x1 x2 k =>
+    (* join!: poll both (in order) with the same waker; ready when both are done *)
+    let (a', H1) := sub_poll c w a H in
+    let (b', H2) := sub_poll c w b H1 in
+    match a', b' with
+    | SDone m1, SDone m2 => go_env (setv x2 m2 (setv x1 m1 en)) k H2
+    | _, _ => Some (Pend (mkF en (LBoth a' b' x1 x2 k) st), H2)
+    end
+  | LRace a b x k =>
+    (* select_biased!: the first branch that is ready wins; both futures are dropped afterwards *)
+    let (a', H1) := sub_poll c w a H in
+    match a' with
+    | SDone m => go_env (setv x m en) k (sub_drop b H1)
+    | SQ _ _ _ _ _ =>
+      let (b', H2) := sub_poll c w b H1 in
+      match b' with
+      | SDone m => go_env (setv x m en) k (sub_drop a' H2)
+      | SQ _ _ _ _ _ => Some (Pend (mkF en (LRace a' b' x k) st), H2)
+      end
     end
   | LHost cid meff mev k =>
     (* Forward: loop { poll_next: Some(item) => start_send; None => Ready; Pending => Pending } *)
